@@ -482,6 +482,118 @@ theorem nocancel_chain_never_drops (pre post : List Setter) (hpost : ∀ s ∈ p
     Ev.innerDrop c k ∉ (run (build (pre ++ .cancel false :: post)) ops).log :=
   (nocancel_runs_to_completion _ (builder_mode_last_wins pre post false hpost).1 ops).1 c k
 
+/-! ## entry points: construction paths, copies of the timeout source, the error accessors, services and handles -/
+
+/-- **However the builder is obtained, and whatever is said about names and listeners, the configuration is the same**:
+`TimeLimiterLayer::builder()`, `TimeLimiterConfigBuilder::new()` and `TimeLimiterConfigBuilder::default()` start from the
+same defaults (fixed 5 s, cancelling); `.name(..)`, `.on_success(..)`, `.on_error(..)`, `.on_timeout(..)` anywhere in the
+chain change neither the timeout source nor the mode: the layer behaves as the one built from the chain with these
+setters left out (so `builder_mode_last_wins` / `builder_source_last_wins` hold with them in between). -/
+theorem builder_entry_points (st : Start) (chain : List Setter) :
+    buildFrom st chain = build chain ∧
+    build chain = build (chain.filter Setter.isCfg) ∧
+    (∀ (cfg : Cfg) (n : String) (k : Nat), applySetter cfg (.name n) = cfg ∧ applySetter cfg (.listen k) = cfg) := by
+  refine ⟨buildFrom_eq_build st chain, ?_, fun _ _ _ => ⟨rfl, rfl⟩⟩
+  unfold build
+  rw [foldl_filter_isCfg]
+
+/-- **The timeout source is the same value wherever it is obtained**: the source a configuration asks for, constructed
+on its own (`FixedTimeout::new(d)` / `DynamicTimeout::new(f)`) and copied any number of times through `Clone` and
+`clone_box`, answers `get_timeout` for a request exactly what the layer captures for a call with that request
+(`timeout_source`): the fixed value, or the request's own timeout (the default if it has none). -/
+theorem source_copies_agree (cfg : Cfg) (ops : List Op) (path : List Copy) (c : Nat) (own : Option Tmo) (sc : Step)
+    (hnew : lookup (run cfg ops).callers c = none) :
+    probeSource cfg path own = (if cfg.dyn then own.getD cfg.timeout else cfg.timeout) ∧
+    recordAfter cfg (run cfg ops) (.arrive c own sc) c = some (newCaller (probeSource cfg path own) sc) := by
+  have h : probeSource cfg path own = (if cfg.dyn then own.getD cfg.timeout else cfg.timeout) := probeSource_eq cfg path own
+  exact ⟨h, by rw [h]; exact recordAfter_arrive_new cfg _ c own sc hnew⟩
+
+/-- **What the accessors of the error say, for every result the limiter delivers.**  `is_timeout()` is true exactly for
+the timeout error, `into_inner()` gives exactly the inner call's own error (its kind, with the serial of that caller's
+inner call) and nothing for the timeout error, the conversion into `ResilienceError` gives `Timeout { layer:
+"time_limiter" }` / `Application(e)`; a success is none of these.  Tied to the property: the poll that finds only the
+deadline reached delivers an error with `is_timeout()` and no inner error; the poll that finds a failed inner call delivers
+an error that is not a timeout and whose `into_inner()` is that failure; and (trace form) whenever a caller of a
+non-panicking inner call was given an error with `is_timeout()`, its deadline had been reached at that instant. -/
+theorem error_accessors (cfg : Cfg) (ops : List Op) (c : Nat) (x : Caller)
+    (hx : lookup (run cfg ops).callers c = some x) :
+    (∀ (r : CRes) (k : Nat),
+        (isTimeout (r.toRes k) = true ↔ r = .timeout) ∧
+        (∀ kd v, intoInner (r.toRes k) = some (kd, v) ↔ (r = .err kd ∧ v = k)) ∧
+        (r = .timeout → intoInner (r.toRes k) = none ∧ asResilience (r.toRes k) = some (.timeout "time_limiter")) ∧
+        (∀ kd, r = .err kd → asResilience (r.toRes k) = some (.application kd k)) ∧
+        (r = .ok → isTimeout (r.toRes k) = false ∧ intoInner (r.toRes k) = none ∧ asResilience (r.toRes k) = none)) ∧
+    (x.outer = .waiting → x.due (run cfg ops).now → (x.sc.out = .never ∨ (run cfg ops).now < x.doneAt) →
+        ∃ pre r, newEvents cfg (run cfg ops) (.poll c) = pre ++ [Ev.result c r] ∧
+          isTimeout r = true ∧ intoInner r = none) ∧
+    (x.outer = .waiting → ∀ kd, x.sc.out = .err kd → x.doneAt ≤ (run cfg ops).now →
+        ∃ pre r, newEvents cfg (run cfg ops) (.poll c) = pre ++ [Ev.result c r] ∧
+          isTimeout r = false ∧ intoInner r = some (kd, serialOf (run cfg ops) c)) ∧
+    (∀ t r k, (t, CEv.result r) ∈ x.hist → isTimeout (r.toRes k) = true → x.sc.out ≠ .panic → x.due t) := by
+  refine ⟨?_, ?_, ?_, ?_⟩
+  · intro r k
+    exact accessors_spec r k
+  · intro hw hdl hnot
+    have h := timeout_if_later cfg ops c x hx hw hdl hnot
+    exact ⟨_, _, h, accessors_timeout⟩
+  · intro hw kd hout hdone
+    have h := inner_wins_whenever_observed cfg ops c x hx hw (Or.inr ⟨kd, hout⟩) hdone
+    rw [hout] at h
+    exact ⟨_, _, h, accessors_inner kd _⟩
+  · intro t r k hr hto hnp
+    have hrt : r = .timeout := isTimeout_toRes hto
+    subst hrt
+    have hinv := inv_reachable cfg ops c x hx
+    rcases hinv.resLate t _ hr with h | h
+    · have hu := hinv.toUnl t hr hnp
+      rcases hinv.toLate t hr hnp with h' | h'
+      · exact absurd h' h.1
+      · exact ⟨hu, Nat.le_trans h' h.2⟩
+    · exact h
+
+/-- **Services built from one layer value, and the handles of a service, share nothing.**  Divide the callers into
+groups in any way — by the service their call went through (any number of services built from the same layer, or from
+clones of it), by the handle of it the call was made on (a fresh clone per call, a kept handle used again while an
+earlier call is still in flight, a clone taken after a call) — `member` says who belongs to one group: after any
+operation sequence, the record of every member (phase, timeout, first poll, deadline, fate of its inner call,
+time-stamped history) is what it is in the run that contains only that group's operations and the advances of the clock.
+A step on behalf of one service or handle leaves every other one's calls untouched; the model has no operation for
+dropping a handle, a service or the layer because no record could depend on it (`nocancel_runs_to_completion` holds for
+every operation sequence: a detached inner call completes whoever is still holding the service). -/
+theorem services_independent (cfg : Cfg) (ops : List Op) (member : Nat → Bool) (c : Nat) (hc : member c = true) :
+    lookup (run cfg ops).callers c = lookup (run cfg (ops.filter (Op.ofGroup member))).callers c ∧
+    (run cfg ops).now = (run cfg (ops.filter (Op.ofGroup member))).now := by
+  have h1 := independent cfg ops c
+  have h2 := independent cfg (ops.filter (Op.ofGroup member)) c
+  rw [filter_relevant_ofGroup member c hc] at h2
+  exact ⟨h1.1.trans h2.1.symm, h1.2.trans h2.2.symm⟩
+
+/-- **A timeout of exactly zero without cancellation**: the first poll reports the timeout at once (the deadline is
+that very instant) and — only then, in the same step — the inner service is called on a detached task: the inner call
+is started, not dropped, and from there on `nocancel_runs_to_completion` applies: it finishes at its latency (at once,
+for latency 0). The mode is not changed by the value of the timeout. -/
+theorem zero_timeout_nocancel_detaches (cfg : Cfg) (hc : cfg.cancel = false) (ops : List Op) (c : Nat) (x : Caller)
+    (hx : lookup (run cfg ops).callers c = some x) (hf : x.outer = .fresh) (hu : x.unl = false) (hz : x.tmo = 0) :
+    newEvents cfg (run cfg ops) (.poll c) =
+      [Ev.result c .timeout, Ev.innerCall c (run cfg ops).serial] ++
+        (if x.sc.out ≠ .never ∧ x.sc.lat = 0 then [Ev.innerDone c (run cfg ops).serial x.sc.out] else []) ∧
+    (∃ x', recordAfter cfg (run cfg ops) (.poll c) c = some x' ∧ x'.outer = .gone ∧
+      x'.inner = (if x.sc.out ≠ .never ∧ x.sc.lat = 0 then .finished else .running)) ∧
+    (∀ k, Ev.innerDrop c k ∉ newEvents cfg (run cfg ops) (.poll c)) := by
+  obtain ⟨hev, hg, hin⟩ := firstPoll_zero_detached cfg hc (run cfg ops).now x hf hu hz
+  have hcalled : CEv.called ∈ (pollC cfg (run cfg ops).now x).2 := by rw [hev]; simp
+  have hne := newEvents_first_poll cfg (run cfg ops) c x hx hcalled
+  rw [hev] at hne
+  have hlist : newEvents cfg (run cfg ops) (.poll c) =
+      [Ev.result c .timeout, Ev.innerCall c (run cfg ops).serial] ++
+        (if x.sc.out ≠ .never ∧ x.sc.lat = 0 then [Ev.innerDone c (run cfg ops).serial x.sc.out] else []) := by
+    rw [hne]
+    split <;> rfl
+  refine ⟨hlist, ⟨(pollC cfg (run cfg ops).now x).1, by simp [recordAfter_poll, hx], hg, hin⟩, ?_⟩
+  intro k hk
+  rw [hlist] at hk
+  split at hk <;> simp at hk
+
 /-! ## non-vacuity: concrete histories -/
 
 /-- cancel mode, fixed timeout 10, created at 0 but first polled at 7: deadline 17, not 10;
@@ -584,6 +696,33 @@ example :
       [.refused 1 false, .refused 2 true, .arrive 3 none ⟨5, .err 1⟩, .poll 3, .adv 5, .poll 3] ∧
     (runR { timeout := 100, cancel := false, dyn := false } rd2 ops2).2.log =
       [.result 1 .notReady, .result 2 (.inner 9 0), .innerCall 3 0, .innerDone 3 0 (.err 1), .result 3 (.inner 1 0)] := by
+  decide
+
+/-- entry points: the three ways to a builder and a chain with a name and listeners in it give the configuration of the
+bare chain; the stand-alone source of a per-request configuration, cloned and boxed, answers the request's own timeout
+(7) or the default (20), that of a fixed one the fixed value; the accessors on the three kinds of result; two services
+(callers 1, 2 / callers 3, 4) built from one non-cancelling layer with per-request timeouts, caller 2 re-using caller 1's
+handle while that call is in flight: service 1 alone does to its callers what it does next to service 2; a zero timeout
+without cancellation: timeout first, then the inner call, which completes. -/
+example :
+    let chain := [Setter.name "a", .cancel false, .listen 2, .fn 20, .name "b", .listen 0]
+    let cfg : Cfg := { timeout := 20, cancel := false, dyn := true }
+    let ops := [Op.arrive 1 (some 5) ⟨7, .ok⟩, .arrive 3 (some 0) ⟨2, .ok⟩, .poll 1, .arrive 2 (some 9) ⟨3, .err 2⟩, .poll 3,
+                .poll 2, .arrive 4 none ⟨0, .never⟩, .poll 4, .adv 5, .poll 1, .poll 2, .adv 20, .poll 4]
+    buildFrom .dflt chain = cfg ∧ buildFrom .new chain = cfg ∧ build chain = cfg ∧
+    chain.filter Setter.isCfg = [.cancel false, .fn 20] ∧
+    probeSource cfg [.clone, .box, .box] (some 7) = 7 ∧ probeSource cfg [.box] none = 20 ∧
+    probeSource { cfg with dyn := false } [.box, .clone] (some 7) = 20 ∧
+    (isTimeout .timeout, intoInner .timeout, asResilience .timeout) = (true, none, some (.timeout "time_limiter")) ∧
+    (isTimeout (.inner 2 1), intoInner (.inner 2 1), asResilience (.inner 2 1)) = (false, some (2, 1), some (.application 2 1)) ∧
+    (run cfg ops).log =
+      [.innerCall 1 0, .result 3 .timeout, .innerCall 3 1, .innerCall 2 2, .innerCall 4 3,
+       .innerDone 3 1 .ok, .innerDone 2 2 (.err 2), .result 1 .timeout, .result 2 (.inner 2 2), .innerDone 1 0 .ok,
+       .result 4 .timeout] ∧
+    (run cfg (ops.filter (Op.ofGroup (fun c => c = 1 || c = 2)))).log =
+      [.innerCall 1 0, .innerCall 2 1, .innerDone 2 1 (.err 2), .result 1 .timeout, .result 2 (.inner 2 1), .innerDone 1 0 .ok] ∧
+    (lookup (run cfg ops).callers 2).map (fun x => (x.start, x.tmo, x.hist)) =
+      (lookup (run cfg (ops.filter (Op.ofGroup (fun c => c = 1 || c = 2)))).callers 2).map (fun x => (x.start, x.tmo, x.hist)) := by
   decide
 
 end TR.Props.C06
